@@ -47,7 +47,7 @@ FLOORS = {
                          "yields_injected": 20000}, "keys": 80, "max_inconclusive_frac": 0.2},
     "thorough": {"counts": {"scenarios": 2500, "writes_checked": 15000}, "keys": 300, "max_inconclusive_frac": 0.2},
 }
-EXHAUSTIVE = {"quick": "error reply at every position 0..3 of a 4-statement sequence x 4 error spellings x 2 transports (quiesced start)",
+ENUMERATED = {"quick": "error reply at every position 0..3 of a 4-statement sequence x 4 error spellings x 2 transports (quiesced start)",
               "thorough": "same enumeration, both start regimes"}
 LAT = {"0": (0.0, 0.0), "1-5ms": (0.001, 0.005), "20-60ms": (0.02, 0.06), "150-400ms": (0.15, 0.4)}
 ERRORS = [b"error:20", b"Error:Printer halted. kill() called!", b"ALARM:1", b"!! Heater failure"]
